@@ -34,7 +34,7 @@ EnvAfter(ctx, line, m, o) ==
   LET n == NameOf(line) IN
   IF ExpectedToFail(line)
   THEN IF o.k = "err" \/ n = <<>> THEN ctx.env ELSE Bind(ctx.env, n, Unspec)
-  ELSE IF line.form = "assign" /\ ~SlotMatches(m.slot, o)
+  ELSE IF line.form = "assign" /\ ~SlotMatchesCtx(ctx, m.slot, o)
   THEN Bind(ctx.env, n, OfObs(o))
   ELSE m.env
 
@@ -44,7 +44,7 @@ RunObs(ctx, lines, obs, ok, exp) ==
   ELSE LET m == LineMeaning(ctx, Head(lines))
            o == Head(obs)
        IN  RunObs([ctx EXCEPT !.env = EnvAfter(ctx, Head(lines), m, o)], Tail(lines), Tail(obs),
-                  ok /\ SlotMatches(m.slot, o), Append(exp, m.slot))
+                  ok /\ SlotMatchesCtx(ctx, m.slot, o), Append(exp, m.slot))
 
 Report(i, exp) == PrintT(<<"BAD", ToJson([l |-> i, expected |-> exp])>>)
 
